@@ -43,6 +43,10 @@ type Run struct {
 	Assumptions   []string
 	Explanation   string
 	Floors        map[string][2]int // rule -> {found, floor}
+	// Mode lets a property that shares rule code with another one ask for the part of the rule that its own
+	// statement needs ("own-lists": references must point into the copy's own lists, not necessarily to the
+	// corresponding element; aliasing of value slices is not its concern).
+	Mode string
 }
 
 func NewRun(p *Prog, prop, tier string) *Run {
